@@ -775,3 +775,82 @@ Proof.
   replace hi with (lo + Z.of_nat (Z.to_nat (hi - lo + 1)) - 1) at 2 by lia.
   apply singles_tile; lia.
 Qed.
+
+(* ================================================================== the executable decomposition meets the hypothesis *)
+Lemma chain_app l1 l2 a m b : chain l1 a m -> chain l2 (m + 1) b -> chain (l1 ++ l2) a b.
+Proof.
+  revert a. induction l1 as [|iv r IH]; intros a H1 H2; cbn [chain app] in *.
+  - subst a. exact H2.
+  - destruct H1 as (E & L & C). split; [exact E|]. split; [exact L|]. now apply IH.
+Qed.
+
+Lemma cover_spec n base lo hi : lo <= hi -> 0 <= base -> base + 2 ^ Z.of_nat n <= 2 ^ 32 -> (n <= 32)%nat ->
+  base mod 2 ^ Z.of_nat n = 0 ->
+  let a := Z.max lo base in
+  let b := Z.min hi (base + 2 ^ Z.of_nat n - 1) in
+  (a <= b -> cidrs_tile (cover n base lo hi) a b) /\ (b < a -> cover n base lo hi = []).
+Proof.
+  intros Hlh. revert base. induction n as [|k IH]; intros base H0 H1 Hn Hal a b.
+  - cbn [cover]. change (2 ^ Z.of_nat 0) with 1 in *. subst a b.
+    destruct ((hi <? base) || (base + 1 - 1 <? lo)) eqn:E1.
+    + split; [lia|reflexivity].
+    + destruct ((lo <=? base) && (base + 1 - 1 <=? hi)) eqn:E2; [|lia].
+      split; [|lia]. intros _. split.
+      * repeat constructor; cbn [fst snd]; change (32 - Z.of_nat 0) with 32; change (2 ^ (32 - 32)) with 1; lia.
+      * cbn [map chain block_iv fst snd]. change (32 - Z.of_nat 0) with 32. change (2 ^ (32 - 32)) with 1. lia.
+  - cbn [cover]. set (S := 2 ^ Z.of_nat (S k)) in *. set (T := 2 ^ Z.of_nat k).
+    assert (HT : 0 < T) by (apply pow2_pos; lia).
+    assert (HS : S = 2 * T).
+    { unfold S, T. rewrite Nat2Z.inj_succ. replace (Z.succ (Z.of_nat k)) with (Z.of_nat k + 1) by lia.
+      apply pow2_succ. lia. }
+    destruct ((hi <? base) || (base + S - 1 <? lo)) eqn:E1.
+    { subst a b. split; [lia|reflexivity]. }
+    destruct ((lo <=? base) && (base + S - 1 <=? hi)) eqn:E2.
+    { subst a b. split; [|lia]. intros _.
+      assert (E32 : 32 - (32 - Z.of_nat (Datatypes.S k)) = Z.of_nat (Datatypes.S k)) by lia.
+      split.
+      - repeat constructor; cbn [fst snd]; rewrite ?E32; fold S; lia.
+      - cbn [map chain block_iv fst snd]. rewrite E32. fold S. lia. }
+    assert (Hal1 : base mod T = 0).
+    { apply Z.mod_divide; [lia|]. apply Z.mod_divide in Hal; [|lia]. destruct Hal as [q Hq]. exists (2 * q). lia. }
+    assert (Hal2 : (base + T) mod T = 0).
+    { apply Z.mod_divide; [lia|]. apply Z.mod_divide in Hal1; [|lia]. destruct Hal1 as [q Hq]. exists (q + 1). lia. }
+    destruct (IH base H0 ltac:(fold T; lia) ltac:(lia) Hal1) as [L1 L2].
+    destruct (IH (base + T) ltac:(lia) ltac:(fold T; lia) ltac:(lia) Hal2) as [R1 R2].
+    fold T in L1, L2, R1, R2. cbv zeta in L1, L2, R1, R2.
+    subst a b. split; [|lia]. intros Hab.
+    destruct (Z_lt_le_dec (Z.min hi (base + T - 1)) (Z.max lo base)) as [Le|Ln].
+    + (* left half empty *)
+      rewrite (L2 Le). cbn [app].
+      replace (Z.max lo base) with (Z.max lo (base + T)) by lia.
+      replace (Z.min hi (base + S - 1)) with (Z.min hi (base + T + T - 1)) by lia.
+      apply R1. lia.
+    + destruct (Z_lt_le_dec (Z.min hi (base + T + T - 1)) (Z.max lo (base + T))) as [Re|Rn].
+      * rewrite (R2 Re), app_nil_r.
+        replace (Z.min hi (base + S - 1)) with (Z.min hi (base + T - 1)) by lia.
+        apply L1. lia.
+      * destruct (L1 Ln) as [F1 C1]. destruct (R1 Rn) as [F2 C2]. split.
+        -- apply Forall_app. split; assumption.
+        -- rewrite map_app. apply (chain_app _ _ _ (base + T - 1)).
+           ++ replace (base + T - 1) with (Z.min hi (base + T - 1)) by lia. exact C1.
+           ++ replace (base + T - 1 + 1) with (Z.max lo (base + T)) by lia.
+              replace (Z.min hi (base + S - 1)) with (Z.min hi (base + T + T - 1)) by lia. exact C2.
+Qed.
+
+Theorem to_cidrs_exec_spec lo hi : 0 <= lo <= hi /\ hi < 2 ^ 32 ->
+  exists cs, to_cidrs_exec lo hi = Ok cs /\ cidrs_tile cs lo hi.
+Proof.
+  intros H. eexists. split; [reflexivity|].
+  destruct (cover_spec 32 0 lo hi ltac:(lia) ltac:(lia) ltac:(cbn; lia) ltac:(lia) ltac:(reflexivity)) as [A _].
+  change (2 ^ Z.of_nat 32) with (2 ^ 32) in A. cbv zeta in A.
+  replace (Z.max lo 0) with lo in A by lia. replace (Z.min hi (0 + 2 ^ 32 - 1)) with hi in A by lia.
+  apply A. lia.
+Qed.
+
+(* so, for the executable instance, the conclusion of to_globs_tile holds outright *)
+Theorem to_globs_tile_exec lo hi : 0 <= lo <= hi /\ hi < 2 ^ 32 ->
+  exists gl ivs, iprange_to_globs to_cidrs_exec (4, lo) (4, hi) = Ok gl /\
+                 Forall2 (fun g iv => glob_denotes g (fst iv) (snd iv)) gl ivs /\
+                 chain ivs lo hi /\
+                 (List.length gl = 1%nat <-> glob_shaped lo hi).
+Proof. apply to_globs_tile. exact to_cidrs_exec_spec. Qed.
